@@ -22,7 +22,7 @@ pub fn def() -> PropDef {
 
 fn meta(_ctx: &Ctx) -> EvidenceMeta {
     EvidenceMeta {
-        rule: "modules with 1-400 (thorough: 5000) functions of equal and unequal size, valid and mutated-invalid (errors inside some function bodies), with passive data + memory.init users; each parsed+emitted by the serial build (co-process) and by the parallel build inside scoped rayon pools of 1,2,3,4,8,16 threads, repeated, and again (pools 1,3,16) with the GC pass between parse and emit, with a custom section that echoes the code transform into the output, and with DWARF generation on for inputs carrying LLVM-like DWARF; one case in eight has a function body larger than 32 KiB, with seeded yields/sleeps injected from inside the parallel closures (on_instr_loc callback during parse, log sink on the per-function 'emit function' record during emit). non-trivial = module has >= 8 functions and pools with >= 2 threads ran; distinct by input bytes. Oracle: identical accept/reject decision and byte-identical output for every pool size and repeat.".into(),
+        rule: "modules with 1-400 (thorough: 5000) functions of equal and unequal size, valid and mutated-invalid (errors inside some function bodies), with passive data + memory.init users; each parsed+emitted by the serial build (co-process) and by the parallel build inside rayon pools of 1,2,3,4,8,16 threads (alternately a fresh pool and a pool shared by all cases of the process, so worker threads see module after module), repeated, and again (pools 1,3,16) with the GC pass between parse and emit, with a custom section that echoes the code transform into the output, and with DWARF generation on for inputs carrying LLVM-like DWARF; one case in eight has a function body larger than 32 KiB, with seeded yields/sleeps injected from inside the parallel closures (on_instr_loc callback during parse, log sink on the per-function 'emit function' record during emit). non-trivial = module has >= 8 functions and pools with >= 2 threads ran; distinct by input bytes. Oracle: identical accept/reject decision and byte-identical output for every pool size and repeat.".into(),
         assumptions: vec![
             "rayon schedules are sampled with perturbation, not enumerated: a violation that needs one specific interleaving can be missed".into(),
             "the serial reference is the same harness built without walrus/parallel".into(),
@@ -182,10 +182,33 @@ mod par {
     pub fn run_once(bytes: &[u8], threads: usize, salt: u64, mode: u8) -> Result<Option<Vec<u8>>, Failure> {
         let gc = mode == 1;
         SALT.store(salt, Ordering::Relaxed);
-        let pool = rayon::ThreadPoolBuilder::new()
-            .num_threads(threads)
-            .build()
-            .map_err(|e| Failure::new("harness:pool", e.to_string()))?;
+        // even salts: a pool that lives as long as the process, shared by all
+        // cases (worker threads, and whatever state they keep, see module
+        // after module); odd salts: a fresh pool
+        static SHARED: std::sync::OnceLock<std::sync::Mutex<std::collections::HashMap<usize, std::sync::Arc<rayon::ThreadPool>>>> = std::sync::OnceLock::new();
+        let pool: std::sync::Arc<rayon::ThreadPool> = if salt % 2 == 0 {
+            let mut map = SHARED.get_or_init(Default::default).lock().unwrap();
+            match map.get(&threads) {
+                Some(p) => p.clone(),
+                None => {
+                    let p = std::sync::Arc::new(
+                        rayon::ThreadPoolBuilder::new()
+                            .num_threads(threads)
+                            .build()
+                            .map_err(|e| Failure::new("harness:pool", e.to_string()))?,
+                    );
+                    map.insert(threads, p.clone());
+                    p
+                }
+            }
+        } else {
+            std::sync::Arc::new(
+                rayon::ThreadPoolBuilder::new()
+                    .num_threads(threads)
+                    .build()
+                    .map_err(|e| Failure::new("harness:pool", e.to_string()))?,
+            )
+        };
         let mut cfg = mode_config(mode);
         cfg.on_instr_loc(|pos| {
             perturb(*pos as u64);
